@@ -72,7 +72,13 @@ def run(tier, replay=None):
                 what = kind if kind not in ('ok', 'error') else ('wrote a file although it reported an error' if recs[i]['obs']['wrote'] else 'neither output nor diagnostic')
                 key = "%s:%s" % (kind, fuzzlib.stable(detail) if detail else what)
                 chk.violation(key, "hexasm on input %s (%s): %s %s" % (c['id'], c['fam'], what, detail), {"input.S": c['src'].encode('latin-1', 'replace')})
-        chk.set("evaluations", len(cases)); chk.set("distinct_nontrivial", len(distinct))
+        # the lexer against spec/Lex.tla: every string up to length 4 over a small alphabet, tokenised by TLC and by the tool
+        import lexcheck
+        nlex, lexbad = lexcheck.run(d, exe, exe, only="asm")
+        chk.set("lexer_strings_compared_with_Lex_tla", nlex)
+        for lang, src, exp, got in lexbad[:20]:
+            chk.violation("lexer:" + repr(src)[:40], "the lexer's --tokens output for %r differs from Lex.tla: expected %r, got %r" % (src, exp, got), {"input": src})
+        chk.set("evaluations", len(cases) + nlex); chk.set("distinct_nontrivial", len(distinct) + nlex)
         chk.set("outcomes", {"%s:%s" % k: v for k, v in sorted(cnt.items())})
         chk.set("unusual_space_size", len(asmprogs)); chk.set("exhaustive_over_unusual_space", True)
         chk.set("rule", "inputs: all of Unusual!AsmPrograms (TLC-enumerated), token mutants of .S files and generated layouts, random byte strings, "
